@@ -706,6 +706,31 @@ def run(ctx):
         chosen_f += extra[:2]
     if d6_steps and not any(has_d6(s) for s in chosen_f):
         raise vlib.Infra("the mutant counterexample's fault schedule %r is not among the exported schedules" % sorted(d6_steps))
+    # leftover family (mechanism M_TmpStartsEmpty): a save that leaves its temp file behind (failed rename, or failed
+    # write/sync whose clean-up unlink fails too), then a job goes away so that the next snapshot is SHORTER, then a
+    # successful save -- the offsets file must still load
+    def leftover(s):
+        stage = 0
+        for st in s["steps"]:
+            f = set(st["fails"])
+            if stage == 0 and st["op"] == "save" and ("rename" in f or ("unlink" in f and f & {"write", "sync"})):
+                stage = 1
+            elif stage == 1 and st["op"] == "remove":
+                stage = 2
+            elif stage == 2 and st["op"] == "save" and not f:
+                return True
+        return False
+    left = {}
+    for sch in file_sched:
+        if leftover(sch):
+            left.setdefault(sched_key(sch), sch)
+    if not left:
+        raise vlib.Infra("TLC exported no schedule of the leftover-temp-file family")
+    have = {sched_key(x) for x in chosen_f}
+    lk = [k for k in sorted(left) if k not in have]
+    ctx.rng.shuffle(lk)
+    chosen_f += [left[k] for k in lk[:(10 if quick else 300)]]
+    n_left = sum(1 for x in chosen_f if leftover(x))
     chosen_g, uniq_g, shapes_g = pick_schedules(ctx, gen_sched, lim_g)
     scen = [file_scenario(s, False) for s in chosen_f]
     # persistence_mode=sync: every commit saves; a sample of the same schedules
@@ -968,7 +993,7 @@ def run(ctx):
                 "non-trivial = distinct (site, mode, injected faults, trace length).  (c) every disk content the crash semantics "
                 "allows after every system call (all byte prefixes) loaded by the real load().  (d) concurrent commits/saves/loads."
                 % (len(tables), uniq_f, uniq_g, shapes_f + shapes_g, "all fault shapes and a seeded sample of %d schedules" % len(scen)))
-    ctx.extra.update({"truncation_sequences": len(seq_cases), "truncation_loads": seq_loads, "truncation_loads_with_zero_offset": seq_zero,
+    ctx.extra.update({"leftover_tempfile_schedules_replayed": n_left, "truncation_sequences": len(seq_cases), "truncation_loads": seq_loads, "truncation_loads_with_zero_offset": seq_zero,
                       "round_trip_tables": len(tables), "round_trip_failures": rt_bad, "scenarios_followed": len(done),
                       "scenarios_inconclusive": inconclusive, "scenarios_not_applicable": skipped, "strace_runs": strace_runs,
                       "disk_views_checked": nviews, "distinct_disk_contents_loaded": ndisk, "concurrency": conc_stats,
